@@ -81,4 +81,12 @@ def overwrite (bpc : Nat) : List (List Nat) → List Nat → List (List Nat)
     if data.isEmpty then c :: rest
     else (data.take bpc ++ c.drop (min bpc data.length)) :: overwrite bpc rest (data.drop bpc)
 
+/-- `FatIO.__write` on the clusters of the file (`cs` = the chain after the FAT side has extended it,
+    new clusters with whatever bytes they held): read-modify-write of the cluster the cursor is in, then
+    cluster-sized chunks from there on -/
+def writeClusters (bpc : Nat) (cs : List (List Nat)) (filesize pos : Nat) (bs : List Nat) : List (List Nat) :=
+  let cur := seekCursor bpc filesize pos
+  let payload := writePayload (cs.getD cur.cindex []) cur.coffpos bs
+  cs.take cur.cindex ++ overwrite bpc (cs.drop cur.cindex) payload
+
 end Model.FatIO
